@@ -263,8 +263,12 @@ async fn run_case(case: Vec<String>) -> String {
     }
     // let INVITE failures be retransmitted (evidence of the INVITE server transaction) and time out: the dialog layer
     // answers an unwanted INVITE inside its delivery loop, so requests released behind it wait for that transaction
-    advance_to(&clock, clock.ms() + 40000).await;
-    settle().await;
+    // - one after the other, 64*T1 each: wait for as many of them as the case contains INVITE requests
+    let n_inv = case[4].split(|c| c == ',' || c == '+').filter(|it| it.starts_with("Q:i:")).count() as u64;
+    for _ in 0..(n_inv + 1) {
+        advance_to(&clock, clock.ms() + 40000).await;
+        settle().await;
+    }
 
     let mut all: Vec<(u64, String)> = log.lock().clone();
     for w in wire.lock().iter() {
